@@ -28,3 +28,9 @@ pub fn u64_of(v: &Value) -> u64 {
         _ => v.as_u64().expect("u64"),
     }
 }
+
+pub static LAST_PANIC: std::sync::Mutex<String> = std::sync::Mutex::new(String::new());
+/// location and message of the most recent panic (set by the panic hook)
+pub fn last_panic() -> String {
+    LAST_PANIC.lock().map(|s| s.clone()).unwrap_or_default()
+}
